@@ -136,3 +136,21 @@ M("C08", "sphdist-chord-only", [(CO, "    w = dsq >= 3.99\n", "    w = dsq >= 3.
 M("C08", "sphdist-zero-fixup-dropped-dec", [(CO, "        (np.atleast_1d(ra1) == np.atleast_1d(ra2))\n        & (np.atleast_1d(dec1) == np.atleast_1d(dec2))\n", "        (np.atleast_1d(ra1) == np.atleast_1d(ra2))\n")],
   "pairs on the same meridian are forced to zero")
 M("C08", "gcirc-radiff-sign", [(CO, "    radiff = ra2 - ra1\n", "    radiff = ra1 - ra2\n")], "cos is even: equivalent", control=True)
+
+# ---- C09
+M("C09", "table-constant-6th-digit", [(CO, "                0.88998808748,\n                -0.88998808748,", "                0.88998908748,\n                -0.88998808748,")],
+  "J2000 eq->gal sin(theta) changed in the 6th digit (1.2e-4 deg; a 7th-digit change moves points by at most 1.3e-5 deg, at the property's own resolution of 1e-5)")
+M("C09", "fourpi-dropped", [(CO, "    ao = ((a + psi[i] + fourpi) % twopi) * R2D", "    ao = ((a + psi[i]) % twopi) * R2D if i != 3 else (a + psi[i]) * R2D")],
+  "ecliptic->equatorial longitudes can come out negative")
+M("C09", "atbound2-folds-at-180", [(CO, "    (w,) = np.where(np.abs(theta) > 90.0)\n    if w.size > 0:\n        theta[w] = 180.0 - theta[w]", "    (w,) = np.where(np.abs(theta) > 180.0)\n    if w.size > 0:\n        theta[w] = 180.0 - theta[w]")],
+  "equivalent here: dec from arctan2 never exceeds 90", control=True)
+M("C09", "stomp-node-twice", [(CO, "    if stomp:\n        theta -= _sdsspar[\"node\"]\n\n    return _thetaphi2xyz(theta, phi)", "    if stomp:\n        theta -= _sdsspar[\"node\"]\n        if units != \"deg\":\n            theta -= _sdsspar[\"node\"]\n\n    return _thetaphi2xyz(theta, phi)")],
+  "stomp convention subtracts the node twice for radian input")
+M("C09", "b1950-ecl-gal-uses-j2000-phi", [(CO, "                4.7005372834,\n                0.11129056012,\n            ],", "                4.71279419371,\n                0.11129056012,\n            ],")],
+  "B1950 ecliptic->galactic uses the J2000 node")
+M("C09", "sdss-etapole-sign-southern", [(CO, "    ceta = z\n    ceta -= _sdsspar[\"etapole\"]", "    ceta = z\n    ceta -= _sdsspar[\"etapole\"]\n    ceta[ceta < -PI - 0.5] += 1e-7")],
+  "eta shifted by 1e-7 rad before wrapping on the far side")
+M("C09", "shiftlon-negshift-no-wrap", [(CO, "            (w,) = np.where(lon > 360.0)\n            if w.size > 0:\n                lon[w] -= 360.0", "            (w,) = np.where(lon > 540.0)\n            if w.size > 0:\n                lon[w] -= 360.0")],
+  "negative shifts leave values up to 540")
+M("C09", "rotate-dec-arcsin-clamp-asym", [(CO, "    dec_out = arcsin(b)\n", "    dec_out = arcsin(b)\n    dec_out[sb < -0.99999] *= -1\n")],
+  "points within 0.26 deg of the south pole are mirrored")
